@@ -1,10 +1,10 @@
-\* quick: every selection x every port map (with/without the -1 default, unmapped tracks, empty map)
+\* quick: every selection x every port map (with/without the -1 default, unmapped tracks, foreign keys, empty map)
 \* the trace acceptor (Player!Via) as next-state relation: accepts only stable merges
 CONSTANTS
   NT = 3
   NE = 1
   MaxNow = 1
-  Kinds <- KindsAll
+  Kinds <- KindsNoB
   TimePats <- Pats3
   Sels <- SelsAll
   PortMaps <- PMall
